@@ -258,11 +258,42 @@ func (index *indexText) processAnalysedDoc(ad analysedDocument) error {
 }
 
 func (index *indexText) parallelAnalyse(ctx context.Context, in <-chan Document) (<-chan analysedDocument, <-chan error) {
-	numWorkers := runtime.NumCPU() - 1
+	numWorkers := max(runtime.NumCPU()-1, 1)
+	/* A batch may contain several changes to the same document, e.g. an update
+	 * that rewrites a text followed by one that blanks it out. They have to
+	 * reach the single writer in the order they were made, so every worker
+	 * gets its own queue and a document is always routed to the same worker
+	 * based on its id. The merged output keeps the order within a worker. */
+	ins := make([]chan Document, numWorkers)
+	for i := range ins {
+		ins[i] = make(chan Document)
+	}
+	utils.GoWithContext(ctx, func() {
+		defer func() {
+			for _, workerIn := range ins {
+				close(workerIn)
+			}
+		}()
+		for {
+			select {
+			case <-ctx.Done():
+				return
+			case doc, ok := <-in:
+				if !ok {
+					return
+				}
+				select {
+				case ins[doc.Id%uint64(numWorkers)] <- doc:
+				case <-ctx.Done():
+					return
+				}
+			}
+		}
+	})
 	outs := make([]<-chan analysedDocument, numWorkers)
 	errCs := make([]<-chan error, numWorkers)
 	for i := 0; i < numWorkers; i++ {
-		out, errC := utils.TransformWithContext(ctx, in, func(doc Document) (ad analysedDocument, skip bool, err error) {
+		out, errC := utils.TransformWithContext(ctx, ins[i], func(doc Document) (ad analysedDocument, skip bool, err error) {
 			// Perform analysis
 			tokens, err := index.analyser.Analyse(doc.Text)
 			if err != nil {
